@@ -69,6 +69,11 @@ func minInt(a, b int) int {
 func e4Check(tb rapid.TB, prop string, c e4Case, oracle func(*e4Result) string, nontrivial func(*e4Result) (bool, []string)) {
 	r := e4Run(c)
 	msg := oracle(r)
+	if vEnv("VERIF_DUMP") != "" { // development aid: print the timeline of every executed case
+		for _, l := range r.trace(0) {
+			fmt.Println("   ", l)
+		}
+	}
 	nt, extra := nontrivial(r)
 	vCount(prop, nt, vJSON(c), append(e4Labels(r), extra...), func() interface{} {
 		return map[string]interface{}{"case": c, "fired": r.Fired, "trace_tail": r.trace(12)}
